@@ -26,7 +26,8 @@ Definition step (e : env) (url : str) : res (option str) :=
               if starts (lit "https://") (lower (firstn 8 pt)) && Nat.ltb 8 (length pt) then Ok (Some pt)
               else if starts (lit "http://") (lower (firstn 8 pt)) && Nat.ltb 7 (length pt) then Ok (Some pt)
               else if starts [47] pt then
-                match urljoin e url pt with
+                match (if has_protocol url then urljoin e url pt
+                       else match urljoin e (lit "http://" ++ url) pt with Ok t => Ok (skipn 7 t) | Exc x => Exc x end) with
                 | Ok t => Ok (Some t)
                 | Exc ValueError => Ok None
                 | Exc x => Exc x
